@@ -731,6 +731,9 @@ def reg_program():
     prog["functions"] += [
         fn("top", ["p"], body("x")),
         fn("deco", ["p"], body("x"), kind="deco"),
+        # has an absolute reference like any other function, but ptera cannot instrument it: every
+        # activation naming it is refused (it is never called)
+        fn("coro", ["p"], body("x"), **{"async": True}),
     ]
     prog["closures"] = [
         {"factory": "mk", "free": {"c0": 41}, "fn": fn("inner", ["p"], body("x"), free=["c0"])},
